@@ -1198,7 +1198,7 @@ pub fn cmd(m: &HashMap<String, String>) -> i32 {
     let mut scripts: u64 = crate::arg_of(m, "scripts", 6);
     let mut gates: u64 = crate::arg_of(m, "gates", 1);
     let per_file: u64 = crate::arg_of(m, "per-file", 2);
-    let deadline = Duration::from_secs(crate::arg_of(m, "deadline", 30));
+    let deadline = Duration::from_secs(crate::arg_of(m, "deadline", 90));
     let mut fs_kind: String = crate::arg_of(m, "fs", "mixed".to_string());
     let mut script_arg: Option<String> = m.get("script").cloned();
     if let Some(p) = m.get("replay") {
